@@ -94,8 +94,35 @@ def gen_raw_piece(rng):
     return {"raw": {"len": rng.randrange(0, 40), "seed": rng.randrange(256)}}
 
 
+def boundary_cases():
+    """deterministic family: short streams under EVERY single cut position and byte-by-byte, for every streaming
+    decoder - covers 'header and body arrive in different reads' for each small payload size, incl. the last
+    frame's body arriving alone"""
+    out = []
+    shapes = [[0], [1], [2], [3], [5, 1], [1, 0], [1, 1, 1], [2, 0, 1], [255, 1], [256, 1], [0, 255, 0]]
+    for shape in shapes:
+        frames = [{"more": i < len(shape) - 1, "cmd": False, "len": n, "seed": 11 * i + n} for i, n in enumerate(shape)]
+        total = sum(enc_len(f) for f in frames)
+        pos = list(range(1, total)) if total <= 40 else sorted(set(list(range(1, 12)) + list(range(total - 6, total)) +
+                                                                      [2 + shape[0], 9 + shape[0], 2 + shape[0] + 1]))
+        pos = [p for p in pos if 0 < p < total]
+        for dec in (0, 1, 5):
+            for p in pos:
+                out.append({"k": "rt", "enc": 0, "batches": [frames], "cuts": [p], "dec": dec, "maxsz": -1, "pre": 0})
+            if total <= 300:
+                out.append({"k": "rt", "enc": 2, "batches": [frames], "cuts": [1] * (total - 1), "dec": dec, "maxsz": -1, "pre": 0})
+            # header in one read, each body byte separately
+            hdr = enc_len(frames[0]) - frames[0]["len"]
+            out.append({"k": "rt", "enc": 0, "batches": [frames], "cuts": [hdr], "dec": dec, "maxsz": -1, "pre": 0})
+        for pre in (1, 2):
+            if total > pre:
+                out.append({"k": "rt", "enc": 0, "batches": [frames], "cuts": [total - pre - 1] if total - pre - 1 > 0 else [],
+                            "dec": 1, "maxsz": -1, "pre": pre})
+    return out
+
+
 def gen_cases(rng, n):
-    cases = []
+    cases = boundary_cases()
     gid = 0
     while len(cases) < n:
         r = rng.random()
